@@ -575,18 +575,36 @@ def ob_cir_header_r(ctx, res):
     if not bufs or int_value(bufs[0][1]) != F.SIZES["CIR_TREE_HEADER"]:
         res.fail("cirHeaderR/bufsize", fn, "index header buffer must be 48 bytes")
     ms = endian_matches(fn.body)
-    if len(ms) != 1:
-        res.fail("cirHeaderR/shape", fn, "expected one byte-order match")
+    if not ms:
+        res.fail("cirHeaderR/shape", fn, "expected a byte-order match")
         return
-    m, big, lit = ms[0]
-    for arm, en in ((big, "be"), (lit, "le")):
-        takes = _arm_reads_ok(res, "cirHeaderR[%s]" % en, arm, F.CIR_TREE_HEADER, en)
-        if takes is None:
+    # the only effect of this function is: consume 48 bytes, compare the magic in the file's byte order. What it decodes (per byte order, over all byte-order
+    # matches in program order) must be a prefix of the published header - decoding the unused fields is optional, decoding them wrongly is not.
+    for en, ix in (("be", 1), ("le", 2)):
+        takes = []
+        for mm_ in ms:
+            takes += [t for t in consumptions(mm_[ix]["body"]) if t.kind in ("u", "f")]
+        arm = ms[0][ix]
+        spec = F.CIR_TREE_HEADER
+        if not takes or len(takes) > len(spec):
+            res.fail("cirHeaderR[%s]/count" % en, arm, "cirHeaderR[%s]: %d reads, format has %d fields (at least the magic must be decoded)" % (en, len(takes), len(spec)))
             continue
-        if "CIR_TREE_MAGIC" not in up(arm["body"]) or "Err" not in up(arm["body"]):
+        bad = False
+        for t, (fname, w, kind) in zip(takes, spec):
+            if t.width != w or (w > 1 and t.endian != en):
+                res.fail("cirHeaderR[%s]/%s" % (en, fname), t.node, "cirTree header field %s: read as %d bytes (%s) in the %s arm, format says %d bytes" % (fname, t.width, t.endian, en, w))
+                bad = True
+                break
+        if bad:
+            continue
+        if "CIR_TREE_MAGIC" not in up(fn.body) or "Err" not in up(fn.body):
             res.fail("cirHeaderR[%s]/magic" % en, arm, "index magic must be compared with CIR_TREE_MAGIC and a mismatch must be an error")
             continue
-        res.ok(arm, "cirTree header (%s arm): 10 fields, 48 bytes, magic checked" % en)
+        cmpn = [n for n in walk_no_nested_fn(fn.body) if n.k == "binary" and n["op"] in ("!=", "==") and "CIR_TREE_MAGIC" in up(n)]
+        if not cmpn:
+            res.undecided("cirHeaderR[%s]/magic" % en, arm, "how the index magic is compared with CIR_TREE_MAGIC was not recognised")
+            continue
+        res.ok(arm, "cirTree header (%s arm): %d of 10 fields decoded in published order (48 bytes consumed), magic checked" % (en, len(takes)))
     # + 48 in the two memoising accessors
     for name in ("full_data_cir_tree", "zoom_cir_tree"):
         f2 = ctx.ast.fn(R, name)
@@ -827,7 +845,22 @@ def ob_wig_block_r(ctx, res):
             i = strip(n["init"])
             if i.k == "binary" and i["op"] == "*" and int_value(i["r"]) is not None:
                 stride = (n, int_value(i["r"]), up(n["pat"]))
-    if stride is None or stride[1] != F.SIZES["WIG_BEDGRAPH_ITEM"]:
+    # `bytes[..n * 12].chunks_exact(12)` / `.chunks(12)`: the library does the striding
+    chunked = [c_ for c_ in walk_no_nested_fn(a1["body"]) if c_.k == "mcall" and c_["method"] in ("chunks_exact", "chunks") and len(c_["args"]) == 1]
+    if len(chunked) == 1 and not any(n.k == "index" and strip(n["index"]).k == "range" and strip(n["index"])["from"] is not None and strip(n["index"])["to"] is not None
+                                     for n in walk_no_nested_fn(a1["body"])):
+        cv = int_value(chunked[0]["args"][0], ctx.ast, RW)
+        if cv == F.SIZES["WIG_BEDGRAPH_ITEM"]:
+            from ..astq import iter_loops as _il
+            loops = [n for n in _il(a1["body"])]
+            ok1 = len(loops) >= 1
+        else:
+            res.fail("wigItem1/stride", chunked[0], "bedGraph items are %d bytes; the block is cut into chunks of %s" % (F.SIZES["WIG_BEDGRAPH_ITEM"], cv))
+            ok1 = False
+    elif stride is None:
+        res.undecided("wigItem1/stride", a1, "how the bedGraph items are addressed (`i * 12`, chunks) was not recognised")
+        ok1 = False
+    elif stride[1] != F.SIZES["WIG_BEDGRAPH_ITEM"]:
         res.fail("wigItem1/stride", a1, "bedGraph item stride must be i * 12; found %s" % (stride[1] if stride else None))
         ok1 = False
     else:
@@ -1116,7 +1149,7 @@ def ob_summary_r(ctx, res):
             if len(za) == 1 and len(oa) == 1:
                 ifs.append((n, oa[0]["body"], za[0]["body"]))
         if len(ifs) != 1:
-            if not any("total_summary_offset" in up(n["cond"]) for n in walk_no_nested_fn(fn.body) if n.k in ("if", "match") and n.get("cond") is not None):
+            if not any("total_summary_offset" in up(n["cond"]) or "total_summary_offset" in origin(fn, strip(n["cond"])) for n in walk_no_nested_fn(fn.body) if n.k in ("if", "match") and n.get("cond") is not None):
                 res.fail("summaryR/%s/v1" % impl, fn, "a zero summary offset (version 1 files) must yield zeros instead of reading at offset 0")
             else:
                 res.undecided("summaryR/%s/v1" % impl, fn, "the test of the summary offset against 0 was not recognised")
